@@ -108,7 +108,7 @@ func c25String(r *rand.Rand, forFields bool) (string, []string) {
 			sb.WriteString([]string{"~", "~/x", "~/", "a~", "\"~\"", "~/x y", "~nosuchuser_zz"}[r.IntN(7)])
 			tags["tilde"] = true
 		case 16:
-			dl := []string{"\nEOF\n", "\nMVDAN_CC_SH_SYNTAX_EOF\n", "\n__VERIF__\n", "EOF", "MVDAN_CC_SH_SYNTAX_EOF", "'\nEOF\n'"}
+			dl := []string{"\nEOF\n", "\nMVDAN_CC_SH_SYNTAX_EOF\n", "\n__VERIF__\n", "EOF", "MVDAN_CC_SH_SYNTAX_EOF", "__VERIF__"}
 			if forFields {
 				dl = dl[3:]
 			}
@@ -155,7 +155,7 @@ func (p *c25) Gen(i int, r *rand.Rand) any {
 		if strings.ContainsAny(s, "\x00") {
 			continue
 		}
-		if strings.Contains(s, "$$") || strings.Contains(s, "$-") || strings.Contains(s, "$!") {
+		if j := strings.ReplaceAll(s, "\\\n", ""); strings.Contains(j, "$$") || strings.Contains(j, "$-") || strings.Contains(j, "$!") {
 			continue // process state bash has and an environment function has not
 		}
 		if c25ToggleOp.MatchString(s) {
@@ -242,7 +242,7 @@ func (p *c25) Run(payload any) mon.Result {
 	}
 	var words []string
 	for _, w := range b.Words {
-		if strings.Contains(strings.ReplaceAll(w, "'\nEOF\n'", ""), "\n") || strings.ContainsAny(w, "<>;&|`") || strings.Contains(w, "$(") && !strings.Contains(w, "$((") {
+		if strings.Contains(w, "\n") || strings.ContainsAny(w, "<>;&|`") || strings.Contains(w, "$(") && !strings.Contains(w, "$((") {
 			continue // bash would run a command or redirect: never evaluated
 		}
 		words = append(words, w)
